@@ -261,6 +261,8 @@ TRUSTED_BASE = [
     "deme run_metaepoch loops): the table saying which python construct is which primitive effect of coq/Model/DriverPrim.v, and the list of calls taken to touch no modelled state",
     "no OCaml extraction is used (no Extract Constant / Extract Inductive directives): every model evaluation is vm_compute inside coqc on generated cases_*.v files; the parsing of coqc's printed lists (hv/coqrun.py)",
     "the harness: recorders installed by patching from outside /repo, oracle derivation, abs(tree), monitors",
+    "python semantics the translators rely on (stated, not proved): functools.total_ordering derives a > b as (not a < b and not a == b); list.index / in / == on Individuals use __eq__; "
+    "the default pickle (dill) of an object graph without customisation hooks restores every attribute, shared objects once; np.argmin returns the first minimum; sorted() is stable",
 ]
 
 
